@@ -12,7 +12,7 @@ from .. import kit as K
 from ..errors import AnalysisError
 from ..interp import Interp, explore
 from ..report import Check
-from ..values import AIter, Msg, PyRaise
+from ..values import AIter, ExtObj, Msg, PyRaise
 
 
 def varint(n: int) -> bytes:
@@ -98,6 +98,11 @@ def check(chk: Check) -> None:
     chk.paths += len(distinct)
     chk.functions.add(construct)
     probe(chk)
+    chk.part("writer-prefix", lambda: writer_prefix(chk))
+    chk.rule("C08.TABLE.writer-mode", "RDFLibJellySerializer.serialize writes length-prefixed frames iff params.delimited, for every logical type it accepts; non-delimited output is a single frame", floor=20)
+    from . import c06
+
+    chk.part("writer-mode", lambda: c06._writer_table(chk, "C08.TABLE.writer-mode"))
 
 
 def probe(chk: Check) -> None:
@@ -114,6 +119,9 @@ def probe(chk: Check) -> None:
                     frames = [w.frame([w.options_row(1, 1)] + w.statement_rows(1, 1, "a"))]
                     if delim:
                         frames.append(w.frame(w.statement_rows(1, 1, "b")))
+                    if hdr[0] == 0:
+                        # a stream that starts with an empty frame, and has another one between two frames with rows
+                        frames = [w.frame([]), frames[0], w.frame([]), frames[1]]
                     inp = K.models.make_input(AIter(iter(frames), "frames"), hdr, seekable=seekable, buffered=True, **extra)
                     opts, fr = it.unpack_values(k.call(k.get(K.IO, "get_options_and_frames"), inp))
                     got = it.drain(fr)
@@ -145,7 +153,79 @@ def probe(chk: Check) -> None:
                         chk.fail(rule, inst, construct, f"options.params.delimited={flag} for a {'delimited' if delim else 'non-delimited'} input")
                     elif used != ({"length-prefixed frames"} if delim else {"whole input as one frame"}):
                         chk.fail(rule, inst, construct, f"{'delimited' if delim else 'non-delimited'} input is read with {sorted(used)}")
-                    elif len(got) != len(frames) or any(a is not b for a, b in zip(got, frames)):
-                        chk.fail(rule, inst, construct, f"frames returned {len(got)} != frames in the input {len(frames)}")
+                    elif len(got) != len(frames) or any(a is not b and not freeze_eq(a, b) for a, b in zip(got, frames)):
+                        chk.fail(rule, inst, construct, f"frames returned ({[len(K.Kit.rows_of(f)) for f in got]} rows) != frames in the input ({[len(K.Kit.rows_of(f)) for f in frames]} rows)" + (": an empty frame is taken for the end of the input" if len(got) < len(frames) and hdr[0] == 0 else ""))
                     else:
                         chk.ok(rule, inst, {"frames": len(got), "reader": sorted(used)})
+
+
+BOUNDARY_SIZES = [0, 1, 9, 10, 11, 126, 127, 128, 129, 255, 256, 16382, 16383, 16384, 16385, 2**21 - 1, 2**21, 2**21 + 1, 2**28 - 1, 2**28, 2**31 - 1]
+
+
+def writer_prefix(chk: Check) -> None:
+    """write_delimited on frames of boundary sizes: what reaches the sink is protobuf's own length-prefixed
+    serialisation, or hand-made bytes whose prefix is exactly the base-128 varint of the payload length."""
+    prog = chk.program
+    rule = "C08.TABLE.writer-prefix"
+    chk.rule(rule, "write_delimited(frame, out): the bytes written are varint(len(frame bytes)) + frame bytes for frame sizes at every varint boundary; write_single writes the frame bytes alone", floor=20)
+    construct = "pyjelly.serialize.ioutils.write_delimited"
+    for size in BOUNDARY_SIZES:
+        for fn_name in ("write_delimited", "write_single"):
+            if fn_name == "write_single" and size not in (0, 10, 16384):
+                continue
+
+            def scenario(it: Interp) -> Any:
+                k = K.Kit(it)
+                w = K.Wire(it)
+                frame = w.frame(w.statement_rows(1, 1, "a"))
+                it.forced_frame_sizes = {frame.uid: size}
+                out = K.models.make_output()
+                k.call(k.get("pyjelly.serialize.ioutils", fn_name), frame, out)
+                return frame, out.attrs["writes"]
+
+            inst = f"{fn_name} frame of {size} bytes"
+            for it, res in explore(prog, scenario, max_paths=4, generic_strings=True):
+                chk.paths += 1
+                if res[0] != "ok":
+                    chk.fail(rule, inst, f"pyjelly.serialize.ioutils.{fn_name}", f"raises {it.exc_class_name(res[1].exc)} at {res[1].site}")
+                    continue
+                frame, writes = res[1]
+                # flatten what was written into a list of parts: bytes | ('frame', msg) | ('lp', msg)
+                parts: list = []
+                for mode, data in writes:
+                    if mode == "delimited":
+                        parts.append(("lp", data))
+                        continue
+                    for p in data.attrs["parts"] if isinstance(data, ExtObj) and data.kind == "bytes:cat" else [data]:
+                        if isinstance(p, bytes):
+                            if parts and isinstance(parts[-1], bytes):
+                                parts[-1] += p
+                            elif p:
+                                parts.append(p)
+                        elif isinstance(p, ExtObj) and p.kind == "bytes:frame":
+                            parts.append(("frame", p))
+                        else:
+                            raise AnalysisError(f"C08: untracked bytes written by {fn_name}: {p!r}")
+                want_prefix = varint(size) if fn_name == "write_delimited" else b""
+                if fn_name == "write_delimited" and len(parts) == 1 and parts[0][0] == "lp" and parts[0][1] is frame:
+                    chk.ok(rule, inst, {"written": "protobuf serialize_length_prefixed"})
+                    continue
+                prefix = parts[0] if parts and isinstance(parts[0], bytes) else b""
+                rest = parts[1:] if prefix else parts
+                body_ok = len(rest) == 1 and rest[0][0] == "frame" and freeze_eq(rest[0][1].attrs["msg"], frame)
+                if not body_ok:
+                    chk.fail(rule, inst, f"pyjelly.serialize.ioutils.{fn_name}", f"writes {_show(parts)} for one frame")
+                elif prefix != want_prefix:
+                    chk.fail(rule, inst, f"pyjelly.serialize.ioutils.{fn_name}:length-prefix", f"a frame of {size} bytes is preceded by {prefix.hex() or 'nothing'}; the base-128 varint of {size} is {want_prefix.hex() or 'nothing (non-delimited)'}")
+                else:
+                    chk.ok(rule, inst, {"prefix": prefix.hex()})
+
+
+def freeze_eq(a: Any, b: Any) -> bool:
+    from ..freeze import freeze
+
+    return freeze(a) == freeze(b)
+
+
+def _show(parts: list) -> str:
+    return "[" + ", ".join(p.hex() if isinstance(p, bytes) else p[0] for p in parts) + "]"
